@@ -1,4 +1,5 @@
 """Contracts for mabwiser/neighbors.py: _Neighbors, _Radius, _KNearest (C03, C05, C06, C07, C10, C14, C17)."""
+import re
 from pyvc.spec import klass, fn
 from specs.base_mab import (INIT_PARAMS, forall_arms, pe_result, pred_result, status_fresh, ADD_REQ, REM_REQ)
 
@@ -79,7 +80,7 @@ HIST = ['not is_none(self.decisions)', 'INV.hist', 'INV.ts']
 # learned before (checked by self-composition; this is where a learning policy whose fit() left a residue, or
 # that draws from a generator the row seed does not reach, is caught).
 fn('neighbors._Neighbors._get_nhood_predictions', props='C03 C05 C07 C09 C10 C11 C12',
-   params={'lp': 'like:self.lp', 'indices': 'indices', 'row_2d': 'mat', 'is_predict': 'bool'},
+   params={'lp': 'like:self.lp', 'indices': 'indices', 'row_2d': 'mat', 'is_predict': 'flag'},
    requires=HIST + LP_READY + ['rows(row_2d) == 1', 'cols(row_2d) == cols(self.contexts)',
                               'indices_in_range(indices, slen(self.decisions))', 'n_indices(indices) > 0',
                               '(not isinstance(lp, _ThompsonSampling)) or is_none(lp.binarizer) or lp.is_contextual_binarized'],
@@ -95,7 +96,7 @@ fn('neighbors._Neighbors._get_nhood_predictions', props='C03 C05 C07 C09 C10 C11
             'lp.is_contextual_binarized == old(lp.is_contextual_binarized))'])
 
 fn('neighbors._Neighbors._get_no_nhood_predictions', props='C03 C08 C09',
-   params={'lp': 'like:self.lp', 'is_predict': 'bool'},
+   params={'lp': 'like:self.lp', 'is_predict': 'flag'},
    requires=['INV.arms', 'INV.keys', 'INV.nan', 'INV.nhood', 'slen(self.arms) > 0'],
    modifies=['lp.rng.rng.state'], result=nh_result,
    functional=True, reads=['rngstate(lp.rng)', 'self.arms', 'self.no_nhood_prob_of_arm'],
@@ -104,7 +105,7 @@ fn('neighbors._Neighbors._get_no_nhood_predictions', props='C03 C08 C09',
             'at(self.no_nhood_prob_of_arm, pos(self.arms, result)) > 0)) if is_predict else '
             '(keys(result) == self.arms and forall_arm(lambda a: implies(mem(self.arms, a), isnan(val(result, a)))))'])
 
-PC_PARAMS = {'contexts': 'mat', 'is_predict': 'bool', 'seeds': 'iseq', 'start_index': 'int'}
+PC_PARAMS = {'contexts': 'mat', 'is_predict': 'flag', 'seeds': 'iseq', 'start_index': 'int'}
 PC_REQ = ['INV', 'not is_none(self.decisions)', 'slen(self.arms) > 0', 'cols(contexts) == cols(self.contexts)',
           'slen(seeds) == rows(contexts)']
 ROW = 'row2d(contexts, j)'
@@ -144,3 +145,33 @@ fn('neighbors._Radius.__init__', props='C03 C04 C08', inline=True,
 fn('neighbors._KNearest.__init__', props='C03 C04 C08', inline=True,
    params={**NB_INIT, 'k': 'int'}, requires=NB_INIT_REQ + ['k >= 1'],
    modifies=['self.**'], ensures=NB_INIT_ENS + ['self.k == k', 'is_none(self.no_nhood_prob_of_arm)'])
+
+
+# ---------------------------------------------------------------- _parallel_predict with a neighbourhood receiver (C05)
+INT32MAX = '2147483647'
+SEEDS = 'draw_integers(%s, %s, rows(contexts))' % ('old(rngstate(self.rng))', INT32MAX)
+
+
+def batch_row(row_term):
+    """the row clause of _predict_contexts, read on the whole batch with the seeds drawn once up front"""
+    return row_term.replace('ival(seeds, j)', 'ival(%s, j)' % SEEDS)
+
+
+def parallel_predict_contract(cls, row_term, extra_req=()):
+    fn('base_mab.BaseMAB._parallel_predict', cls=cls, props='C03 C05 C08 C09 C10',
+       params={'contexts': 'mat', 'is_predict': 'flag'},
+       requires=['INV', 'not is_none(self.decisions)', 'slen(self.arms) > 0', 'cols(contexts) == cols(self.contexts)',
+                 'rows(contexts) >= 1'] + list(extra_req),
+       modifies=['self.rng.rng.state'], result='parallel_result', telescope='starts',
+       # C05: whatever the number of jobs and however the rows are split into chunks, row j of the answer is the
+       # row-local value for (row j, seed j), the seeds being drawn once, before partitioning, from the bandit's generator
+       ensures=['[C05,C08,shape] is_list_result(result) == (rows(contexts) > 1)',
+                '[C05,C08,len] (slen(result) == rows(contexts)) if rows(contexts) > 1 else True',
+                '[C03,C05,rows] (forall_int(lambda j: implies(0 <= j and j < rows(contexts), same_item(result, j, %s)))) '
+                'if is_list_result(result) else same_item(as_list(result), 0, %s)'
+                % (batch_row(row_term), re.sub(r'\bj\b', '0', batch_row(row_term))),
+                '[C05,C10,stream] rngstate(self.rng) == next_integers(old(rngstate(self.rng)), %s, rows(contexts))' % INT32MAX])
+
+
+parallel_predict_contract('_Radius', RADIUS_ROW)
+parallel_predict_contract('_KNearest', KNN_ROW, ['self.k <= slen(self.decisions)'])
